@@ -22,7 +22,7 @@ RULE = ("triples: CIDAR entry/cassette/device vectors, EcoFlex cassette/device v
         "Non-trivial = product has exactly the two next-level sites and was typed at >= 10 rotations; distinct = distinct (triple, vector, inserts).")
 ASSUMPTIONS = ["inserts are at least two nucleotides long and contain no site of either level's enzyme",
                "for YTK the 'insert' is the template between the type-specific overhangs embedded in the product"]
-FLOORS = {"c11_products_typed": 400, "c11_rotations_typed": 6000, "c11_reassembled": 300, "c11_two_level": 20, "c11_triples_seen": 8}
+FLOORS = {"c11_vectors_with_next_level_site_in_placeholder": 40, "c11_products_typed": 400, "c11_rotations_typed": 6000, "c11_reassembled": 300, "c11_two_level": 20, "c11_triples_seen": 8}
 MUST_REACH = ["AbstractVector.assemble"]
 BUDGET_S = {"quick": 900, "thorough": 7200}
 
@@ -80,6 +80,24 @@ def make_vector(rng, Vc, enzs, groups=None):
         if all(nsites(sv, e) == 2 for e in set(enzs)) or (len(set(enzs)) == 1 and nsites(sv, enzs[0]) == 2):
             return sv
     return None
+
+
+def site_in_placeholder(rng, sv, enz, nenz):
+    """insert a next-level recognition site into the placeholder (the stretch between the vector's own two sites,
+    which the assembly discards): legitimate, the product still carries only the two designed sites"""
+    s = sv.upper()
+    rev = occurrences(s, rc(enz.site))
+    fwd = occurrences(s, enz.site)
+    if len(rev) != 1 or len(fwd) != 1:
+        return None
+    a, b = rev[0] + len(enz.site), fwd[0]
+    if b - a < 2:
+        return None
+    i = rng.randint(a + 1, b - 1)
+    out = sv[:i] + rng.choice([nenz.site, rc(nenz.site)]) + sv[i:]
+    if nsites(out, enz) != 2:
+        return None
+    return out
 
 
 def rec(text, rid):
@@ -181,6 +199,11 @@ def one_triple(ctx, name, Vc, Mc, Nc, rng):
             ctx.count("skipped_cannot_build")
             return
         sv = v["seq"]
+        if rng.random() < 0.4:
+            alt = site_in_placeholder(rng, sv, enz, nenz)
+            if alt is not None:
+                sv = alt
+                ctx.count("c11_vectors_with_next_level_site_in_placeholder")
         mods = [ms]
         # template = between the type-specific overhangs:  TCTC N oooo <template> oooo N GA
         body = fr[1][k:]
@@ -193,6 +216,11 @@ def one_triple(ctx, name, Vc, Mc, Nc, rng):
         if sv is None:
             ctx.count("skipped_cannot_build")
             return
+        if enz.site != nenz.site and rng.random() < 0.4:
+            alt = site_in_placeholder(rng, sv, enz, nenz)
+            if alt is not None:
+                sv = alt
+                ctx.count("c11_vectors_with_next_level_site_in_placeholder")
         fr = refmodel.vector_fragment(sv.upper(), geom)
         if fr is None:
             ctx.count("skipped_cannot_build")
@@ -281,18 +309,18 @@ def two_level(ctx, kit, rng):
             if nsites(sm, e1) != 2 or nsites(sm, e2):
                 continue
             try:
-                p = assemble(V1(rec(sv, "cv%d" % j)), [M1(rec(sm, "entry%d" % j))])
+                p = assemble(V1(rec(sv, "cv%d" % j)), [M1(rec(sm, "entry%d" % j))])   # default id/name: "assembly"
             except Exception as e:
                 ctx.violation("level-assembly-raises:%s:%s" % (name, type(e).__name__), "%s: %s" % (name, str(e)[:160]), vector=sv, modules=[sm])
                 return
             pt = str(p.seq).upper()
             if nsites(pt, e2) == 2 and nsites(pt, e1) == 0:
-                cassettes.append((pt, t))
+                cassettes.append((pt, t, p))
                 break
         else:
             ctx.count("skipped_cannot_build")
             return
-    frs = [refmodel.module_fragment(pt, g2) for pt, _ in cassettes]
+    frs = [refmodel.module_fragment(pt, g2) for pt, _, _ in cassettes]
     if any(f is None for f in frs):
         ctx.count("skipped_cannot_build")
         return
@@ -304,9 +332,10 @@ def two_level(ctx, kit, rng):
     if sv2 is None:
         ctx.count("skipped_cannot_build")
         return
-    wit = dict(triple="two-level-" + kit, vector=sv2, modules=[pt for pt, _ in cassettes])
+    wit = dict(triple="two-level-" + kit, vector=sv2, modules=[pt for pt, _, _ in cassettes])
     try:
-        ents = [N1(rec(rot_left(pt, rng.randrange(len(pt))), "cas%d" % i)) for i, (pt, _) in enumerate(cassettes)]
+        # the products themselves, as returned by the first level (same default id for all), rotated by the library
+        ents = [N1(p >> rng.randrange(len(p))) for _, _, p in cassettes]
         dev = assemble(V2(rec(sv2, "dv")), ents[::-1])
     except Exception as e:
         ctx.violation("level-assembly-raises:two-level-%s:%s" % (kit, type(e).__name__), "two-level %s: assembling cassette products into the device vector raised %s: %s" % (
@@ -319,10 +348,10 @@ def two_level(ctx, kit, rng):
         return
     insert = "".join(f[1] for f in frs)
     type_product(ctx, N2, dt, insert, "two-level-" + kit, wit, rng)
-    for _, t in cassettes:
+    for _, t, _ in cassettes:
         if t not in dt:
             ctx.violation("two-level-loses-entry-target", "two-level %s: an entry target is missing from the device product" % kit, **wit)
-    ctx.nontrivial(["two-level", kit, sv2, [pt for pt, _ in cassettes]])
+    ctx.nontrivial(["two-level", kit, sv2, [pt for pt, _, _ in cassettes]])
     ctx.sample({"two_level": kit, "cassettes": ncass, "device_length": len(dt)}, cap=1)
 
 
